@@ -2151,7 +2151,7 @@ def param_rule_call(a):
                 {"find_parameterized_rule": m_result_opq, "query": m_result_opq, "resolve_function": m_result_opq,
                  "eval_rule": mirexec.m_result_status, "next": mirexec.m_iter_next, "iter": mirexec.m_new_iter,
                  "into_iter": mirexec.m_new_iter, "as_str": mirexec.m_identity, RC_NEW: mirexec.m_identity,
-                 "with_capacity": lambda ex, av: ex.opq()},
+                 "with_capacity": lambda ex, av: ex.opq(), "box_assume_init_into_vec_unsafe": mirexec.m_vec_from_array},
                 log=("insert",), unroll=2, max_paths=40000)
     a.fns.append("rules::eval::eval_parameterized_rule_call")
     GNC = struct_fields(a.src, "rules/exprs.rs", "GuardNamedRuleClause")
@@ -2182,6 +2182,20 @@ def param_rule_call(a):
             want = ex.proj.get((names[1], f"[{j}]")) if names[0] == "opaque" else None
             if j >= len(its) or want is None or not same(key, want):
                 probs.append("argument stored under another parameter's name")
+            # WHAT is bound: a literal argument is the ONE value it is - a one-entry list holding v - never spread into its elements or re-read;
+            # a query / function-call argument is exactly what query() / resolve_function() answered for it
+            val = e[2][2] if len(e[2]) > 2 else None
+            arg = its[j][1] if j < len(its) else None
+            answers = [c_[3][3]["Ok"] for c_ in calls(p, "query") + calls(p, "resolve_function") if c_[3][0] == "enum"]
+            if val is not None and val[0] == "array":
+                lit = payload(ex, arg, "Value") if arg is not None else None
+                # (WHICH kind of entry - Literal or Resolved - is the separate obligation literal-argument-bound-as-a-literal)
+                okv = (len(val[1]) == 1 and val[1][0][0] == "variant" and val[1][0][2] in ("Literal", "Resolved") and lit is not None
+                       and same(val[1][0][3][0], lit))
+            else:
+                okv = val is not None and any(same(val, w) for w in answers)
+            if not okv:
+                probs.append("the value bound is not the argument's own value (literal: one entry holding v; query / call: its answer)")
         if er:
             e = er[0]
             ok = (len(er) == 1 and same(e[2][0], field(ex, prule, PR.index("rule"), "Rule")))
@@ -2217,7 +2231,7 @@ def param_rule_call(a):
     c = a.discharge("eval_parameterized_rule_call/binding", ex, bad,
                 f"call of a parameterised rule with <= 2 arguments ({nins} bindings over all paths): an arity mismatch or a failing "
                 "argument query is an error and the rule is not evaluated; otherwise the k-th argument's value is bound to the k-th "
-                "parameter name, the called rule's body is evaluated once in a context holding exactly these bindings on top of the "
+                "parameter name (a literal as the one value it is, never spread into its elements; a query / call as what it answered), the called rule's body is evaluated once in a context holding exactly these bindings on top of the "
                 "caller's context; its status is returned unchanged - unless the call carries a prefix `not`: then the result is PASS exactly when "
                 "the call is Ok and not PASS (the negation is never ignored)")
     if c:
@@ -2226,12 +2240,67 @@ def param_rule_call(a):
         a.candidates.append(c)
 
 
+def param_literal_kind(a):
+    """C15 (`calling f(args) is equivalent to its body with the parameters replaced by the argument literals`): a `let` literal resolves to
+    [Literal(v)] (scope/resolve_variable) and a literal written in place is handed to the comparison as Literal(v) (eval.rs); the
+    comparison operators read a Literal list as the SET of its members and a Resolved list as ONE value (operators.rs), so a literal
+    argument must be bound as Literal(v) too. KNOWN FINDING KF4 on the pinned tree: it is bound as Resolved(v)."""
+    ex = a.exec(r"(?:(?:rules::)?eval::)?eval_parameterized_rule_call",
+                {"find_parameterized_rule": m_result_opq, "query": m_result_opq, "resolve_function": m_result_opq,
+                 "eval_rule": mirexec.m_result_status, "next": mirexec.m_iter_next, "iter": mirexec.m_new_iter,
+                 "into_iter": mirexec.m_new_iter, "as_str": mirexec.m_identity, RC_NEW: mirexec.m_identity,
+                 "with_capacity": lambda ex, av: ex.opq(), "box_assume_init_into_vec_unsafe": mirexec.m_vec_from_array},
+                log=("insert",), unroll=2, max_paths=40000)
+    a.fns.append("rules::eval::eval_parameterized_rule_call (kind of entry a literal argument is bound as)")
+    bad, n = [], 0
+    for p in ex.paths:
+        wrong = False
+        for e in calls(p, "insert"):
+            val = e[2][2] if len(e[2]) > 2 else None
+            if val is not None and val[0] == "array":
+                n += 1
+                if not (len(val[1]) == 1 and val[1][0][0] == "variant" and val[1][0][2] == "Literal"):
+                    wrong = True
+        bad.append(pc_term(p.pc) if wrong else "false")
+    c = a.discharge("eval_parameterized_rule_call/literal-argument-bound-as-a-literal", ex, bad,
+                    f"call of a parameterised rule ({n} literal bindings over all paths): a literal argument is bound as [Literal(v)] - the kind of entry a "
+                    "`let` literal resolves to and an in-place literal is compared as - so that `%p` in the body means what the literal means in place")
+    if c:
+        c["replay"] = replay_param_literal_kind(a)
+        c["reproduced"] = c["replay"].get("reproduced", False)
+        a.candidates.append(c)
+
+
+def replay_param_literal_kind(a):
+    """call form vs in-place form vs `let` form of clauses whose verdict depends on the literal being read as a literal"""
+    exe = a.cli()
+    if not exe:
+        return {"reproduced": False, "note": "native build failed"}
+    data = '{"a": 1, "R": ["tcp", "icmp"]}\n'
+    wdef = "rule same(v, w) {\n  %v == %w\n}\nrule notin(v, allowed) {\n  %v not in %allowed\n}\n"
+    triples = [("same(a, [1])", "a == [1]", "let w = [1]\n", "a == %w"),
+               ("notin(R, [\"tcp\", \"udp\"])", "R not in [\"tcp\", \"udp\"]", "let al = [\"tcp\", \"udp\"]\n", "R not in %al")]
+    out = []
+    for call, inplace, letdef, letform in triples:
+        got = []
+        for pre, body in ((wdef, call), ("", inplace), (letdef, letform)):
+            rc, rep, err = a.run_structured(exe, pre + "rule t {\n  " + body + "\n}\n", [data])
+            if rep and isinstance(rep, list) and rep:
+                r = rep[0]
+                got.append("PASS" if "t" in r.get("compliant", []) else ("SKIP" if "t" in r.get("not_applicable", []) else "FAIL"))
+            else:
+                got.append(f"ERROR (exit {rc})")
+        if got[0] != got[1]:
+            out.append({"call": call, "in_place": inplace, "status_of_the_call": got[0], "status_in_place": got[1], "status_with_let": got[2]})
+    return {"reproduced": bool(out), "mismatches": out, "data": data}
+
+
 def replay_param_rules(a):
     import os, shutil, subprocess, tempfile
     exe = a.cli()
     if not exe:
         return {"reproduced": False, "note": "native build failed"}
-    data = '{"a": 1,\n "b": 2, "L": [1, 2]}\n'
+    data = '{"a": 1,\n "b": 2, "L": [1, 2], "P": ["tcp"], "Q": "tcp", "R": ["tcp", "icmp"]}\n'
     defs = "rule chk(p, q) {\n  %p == 1\n  %q == 2\n}\n"
     cases = [(defs + "rule t {\n  chk(a, b)\n}\n", "PASS"), (defs + "rule t {\n  chk(b, a)\n}\n", "FAIL"),
              (defs + "rule t {\n  chk(1, 2)\n}\n", "PASS"), (defs + "rule t {\n  chk(a, 3)\n}\n", "FAIL"),
@@ -2261,6 +2330,24 @@ def replay_param_rules(a):
         got = "PASS" if "t" in r.get("compliant", []) else ("SKIP" if "t" in r.get("not_applicable", []) else "FAIL")
         if got != exp:
             out.append({"rules_file": rules, "expected": exp, "observed": got})
+    # a literal argument means the body with the literal written in place of the parameter - also when the literal is a list or a map
+    # (call form vs in-place form; the two must report the same status)
+    wdef = "rule within(v, allowed) {\n  %v in %allowed\n}\nrule same(v, w) {\n  %v == %w\n}\nrule notin(v, allowed) {\n  %v not in %allowed\n}\n"
+    pairs = [("within(P, [\"tcp\", \"udp\"])", "P in [\"tcp\", \"udp\"]"), ("within(Q, [\"tcp\", \"udp\"])", "Q in [\"tcp\", \"udp\"]"),
+             ("within(R, [\"tcp\", \"udp\"])", "R in [\"tcp\", \"udp\"]"), ("within(P, [\"udp\"])", "P in [\"udp\"]"),
+             ("same(L, [1, 2])", "L == [1, 2]"), ("same(P, [\"tcp\"])", "P == [\"tcp\"]"), ("same(Q, {\"k\": 1})", "Q == {\"k\": 1}")]
+    # (pairs that tell a Literal entry from a Resolved one - `a == [1]`, `R not in [..]` - are the replay of literal-argument-bound-as-a-literal)
+    for call, inplace in pairs:
+        got = []
+        for body in (call, inplace):
+            rc, rep, err = a.run_structured(exe, wdef + "rule t {\n  " + body + "\n}\n", [data])
+            if rep and isinstance(rep, list) and rep:
+                r = rep[0]
+                got.append("PASS" if "t" in r.get("compliant", []) else ("SKIP" if "t" in r.get("not_applicable", []) else "FAIL"))
+            else:
+                got.append(f"ERROR (exit {rc})")
+        if got[0] != got[1]:
+            out.append({"call": call, "in_place": inplace, "status_of_the_call": got[0], "status_in_place": got[1]})
     real = [o for o in out if "problem" not in o]
     return {"reproduced": bool(real), "mismatches": out[:4], "data": data}
 
@@ -4530,7 +4617,7 @@ SITES = {
     "C02": [param_ctx_end_record, scope_delegations, param_rule_call],
     "C09": [report_partition, report_rule_listing, report_clause_content, report_combine_union, unary_empty_on_expr, param_ctx_end_record],
     "C10": [report_clause_content],
-    "C15": [scope_resolution, scope_discipline, scope_delegations, variable_tables, param_rule_call, param_ctx_resolve],
+    "C15": [scope_resolution, scope_discipline, scope_delegations, variable_tables, param_rule_call, param_literal_kind, param_ctx_resolve],
     "C03": [param_rule_call],
     "C04": [rule_status_semantics, root_scope_rule_table, scope_delegations, scope_resolution],
     "C01": [rule_status_semantics, root_scope_rule_table, scope_discipline, scope_resolution, scope_delegations, variable_tables, param_rule_call, param_ctx_resolve],
